@@ -162,6 +162,13 @@ Theorem C12_mini_complete_drained :
 Proof. exact mini_complete_drained. Qed.
 Print Assumptions C12_mini_complete_drained.
 
+(* several senders: the mini receiver keeps no state, so sources cannot interfere (any number of them) *)
+Theorem C12_mini_noninterference :
+  forall (inflate : list Byte.byte -> option (list Byte.byte)) rc a net,
+    filter (mfrom a) (mrecv_all inflate rc net) = mrecv_all inflate rc (filter (mfrom a) net).
+Proof. exact mini_noninterference. Qed.
+Print Assumptions C12_mini_noninterference.
+
 (* non-vacuity: a codec satisfying the zlib premise exists, and a run satisfying the other premises
    exercises the compressed path, the uncompressed-with-patched-header path, the drop of an oversize
    Message and the 24-bit packet-id wrap *)
